@@ -232,6 +232,8 @@ def run_property(prop, tier, seed, jobs):
     print(f"{prop} [{tier}] contracts={len(cids)} structures={len(tasks)} obligations={n_obl} discharged={n_dis} failed={len(failed)} "
           f"undecided={len(undecided)} native_runs={native_runs} native_failed={len(native_failed)} functions={len(touched)} "
           f"solver_calls={solver_calls} solver_time={solver_time:.1f}s wall={time.time() - t0:.1f}s")
+    slow = sorted((r for r in results if "crash" not in r), key=lambda r: -r["wall"])[:3]
+    print("slowest tasks: " + "; ".join(f"{r['cid'].split('.', 1)[1][:30]} {r['wall']:.1f}s paths={r['paths']}" for r in slow))
     if crashes:
         return 3
     if violations:
